@@ -16,12 +16,14 @@ RULE = (
     "initial state, op sequence over {shutdown, startup, reset, tick, service request, file request, incoming ping, "
     "incoming ARP}) on a subject node 's' with an always-on peer 'p' (and a second peer 'q' behind network nodes). "
     "Exhaustive part: every sequence of the 8-symbol alphabet to depth 3 (quick) / 4 (thorough) that contains at least one "
-    "shutdown or reset (sequences without one never leave ON), for every node type and every duration pair in {0,1}^2 "
+    "shutdown or reset (sequences without one never leave ON), plus every sequence one op shorter on a node declared OFF, "
+    "for every node type and every duration pair in {0,1}^2 "
     "(quick) / {0,1,2}^2 (thorough); random part: Hypothesis sequences to depth 25 (blocks 'power request + 0..8 ticks / "
     "foreign operations') with durations in {0..4}^2 and the initial state ON or OFF. After every op the reference power "
     "FSM is compared with Node.operating_state and, while the node is not ON, the gating battery runs (interfaces, "
-    "monitors on its interfaces, its software, ~12 well-formed "
-    "requests, ping / ARP / directly delivered frames). Non-trivial = the sequence itself contains a service/file request "
+    "monitors on its interfaces, its software, one well-formed "
+    "request for EVERY leaf of the node's own request tree (30-126 routes, enumerated at run time; refused and state "
+    "fingerprint unchanged), ping / ARP / directly delivered frames). Non-trivial = the sequence itself contains a service/file request "
     "or incoming ping/ARP issued while the node is transitional or OFF; distinct by hash of the whole case."
 )
 ASSUMPTIONS = [
@@ -191,16 +193,121 @@ def requests(kind: str) -> Dict[str, List]:
     return r
 
 
-def battery_keys(kind: str) -> List[str]:
-    """Requests fired at the subject whenever it is not ON; each must come back with a status other than success."""
-    keys = ["shutdown", "reset", "os-scan", "node-scan", "folder-create", "file-create:probe", "nic-disable", "nic-enable"]
-    if kind in HOSTS:
-        keys += ["service-scan", "service-stop", "service-start", "app-execute", "app-close", "app-install"]
-    if kind in ROUTERS:
-        keys += ["service-scan", "service-stop", "acl-add-rule"]
-    if kind == "firewall":
-        keys += ["fw-acl-add-rule"]
-    return keys
+# every request route the node's own request manager offers (enumerated at run time, not a hand-written list)
+
+_FORM_MEMO: Dict[str, List[List]] = {}
+REFUSED = ("failure", "unreachable")
+
+
+def formed_tails(kind: str) -> List[List]:
+    """Requests formed by the agent-action classes for node `s`, without the ['network','node','s'] prefix.
+
+    A leaf of the request tree takes its arguments from the first formed request it is a prefix of; leaves that no
+    action addresses take them from MANUAL_ARGS (or take none, which is their documented form).
+    """
+    if kind in _FORM_MEMO:
+        return _FORM_MEMO[kind]
+    from primaite.game.agent.actions import ActionManager
+
+    am = ActionManager()
+    n = {"node_name": S}
+    ip = "192.168.1.10"
+    cmd = ["file_system", "create", "folder", "probe2"]
+    rule = dict(src_ip="ALL", protocol_name="icmp", permission="PERMIT", position=5, dst_ip="ALL", src_port="ALL",
+                dst_port="ALL", src_wildcard="NONE", dst_wildcard="NONE")
+    nmap = {"source_node": S, "target_ip_address": ip, "show": False}
+    forms = [
+        ("node-file-create", {**n, "folder_name": "probe", "file_name": "p.txt"}),
+        ("node-folder-create", {**n, "folder_name": "probe"}),
+        ("node-file-delete", {**n, "folder_name": "probe", "file_name": "p.txt"}),
+        ("node-file-access", {**n, "folder_name": "probe", "file_name": "p.txt"}),
+        ("node-application-install", {**n, "application_name": "database-client"}),
+        ("node-application-remove", {**n, "application_name": "web-browser" if kind in HOSTS else "nmap"}),
+        ("node-nmap-ping-scan", nmap),
+        ("node-nmap-port-scan", {**nmap, "target_port": 80, "target_protocol": "tcp"}),
+        ("node-network-service-recon", {**nmap, "target_port": 80, "target_protocol": "tcp"}),
+        ("node-account-add-user", {**n, "username": "probe", "password": "pw", "is_admin": False}),
+        ("node-account-disable-user", {**n, "username": "probe"}),
+        ("node-account-change-password", {**n, "username": "admin", "current_password": "admin", "new_password": "admin2"}),
+        ("node-session-remote-login", {**n, "username": "admin", "password": "admin", "remote_ip": ip}),
+        ("node-session-remote-logoff", {**n, "remote_ip": ip}),
+        ("node-send-remote-command", {**n, "remote_ip": ip, "command": cmd}),
+        ("node-send-local-command", {**n, "username": "admin", "password": "admin", "command": cmd}),
+        ("router-acl-add-rule", {**rule, "target_router": S}),
+        ("router-acl-remove-rule", {"target_router": S, "position": 1}),
+    ]
+    for port in ("internal", "dmz", "external"):
+        for direction in ("inbound", "outbound"):
+            fw = {"target_firewall_nodename": S, "firewall_port_name": port, "firewall_port_direction": direction}
+            forms.append(("firewall-acl-add-rule", {**rule, **fw}))
+            forms.append(("firewall-acl-remove-rule", {**fw, "position": 1}))
+    out = [am.form_request(a, o)[3:] for a, o in forms]
+    _FORM_MEMO[kind] = out
+    return out
+
+
+MANUAL_ARGS: Dict[Tuple, List] = {
+    ("file_system", "delete", "folder"): ["probe"],
+    ("file_system", "restore", "file"): ["probe", "p.txt"],
+    ("file_system", "restore", "folder"): ["probe"],
+    ("service", "user-session-manager", "remote_login"): ["admin", "admin", "192.168.1.10"],
+    ("service", "user-session-manager", "remote_logout"): ["no-such-session"],
+    ("service", "ftp-client", "send"): [{"dest_ip_address": "192.168.1.10", "src_folder_name": "probe", "src_file_name": "p.txt",
+                                          "dest_folder_name": "probe", "dest_file_name": "p.txt"}],
+}
+
+
+def leaf_request(kind: str, leaf: List) -> List:
+    for tail in formed_tails(kind):
+        if tail[: len(leaf)] == leaf and len(tail) > len(leaf):
+            return ["network", "node", S] + [x if not isinstance(x, (dict, list)) else _copy(x) for x in tail]
+    return ["network", "node", S] + list(leaf) + _copy(MANUAL_ARGS.get(tuple(leaf), []))
+
+
+def _copy(x):
+    import copy
+
+    return copy.deepcopy(x)
+
+
+def leaf_key(leaf: List) -> str:
+    """Structural name of a route: instance numbers and generated file/folder names are generalised."""
+    out = []
+    for i, part in enumerate(leaf):
+        prev = leaf[i - 1] if i else None
+        if prev == "network_interface":
+            out.append("N")
+        elif prev == "folder" and i >= 2 and leaf[i - 2] == "file_system":
+            out.append("F")
+        elif prev == "file" and "folder" in leaf[:i]:
+            out.append("X")
+        else:
+            out.append(str(part))
+    return "/".join(out)
+
+
+def fingerprint(sim: "Sim") -> Tuple:
+    """What a refused request must leave alone: power state and timers, interfaces, software states, ACLs, users, files."""
+    n = sim.s
+    c = n.config
+    acls = []
+    for name in ("acl", "internal_inbound_acl", "internal_outbound_acl", "dmz_inbound_acl", "dmz_outbound_acl",
+                 "external_inbound_acl", "external_outbound_acl"):
+        a = getattr(n, name, None)
+        if a is not None:
+            acls.append((name, tuple(str(r) for r in a.acl)))
+    um = n.user_manager if n.software_manager.software.get("user-manager") else None
+    users = tuple(sorted((u.username, u.password, u.disabled, u.is_admin) for u in um.users.values())) if um else ()
+    fs = n.file_system
+    files = tuple(sorted((f.name, f.deleted, tuple(sorted((x.name, x.deleted) for x in f.files.values())),
+                          tuple(sorted(x.name for x in f.deleted_files.values()))) for f in fs.folders.values()))
+    return (
+        n.operating_state.name, c.start_up_countdown, c.shut_down_countdown, c.is_resetting,
+        tuple(i.enabled for i in sim.ifaces.values()),
+        tuple(sorted((x.name, x.operating_state.name, x.health_state_actual.name) for x in n.software_manager.software.values())),
+        tuple(acls), users, files, tuple(sorted(f.name for f in fs.deleted_folders.values())),
+        n.node_scan_countdown, n.red_scan_countdown,
+    )
 
 
 # ---------------------------------------------------------------------------------------------------------------------
@@ -474,16 +581,37 @@ def check_not_on(sim: Sim, res: CaseResult, when: str, phase: str, comp: List[st
             out = False
         if out:
             res.violate(f"node-pings-out-not-on:{phase}", f"{w}: '{S}'.ping(p) succeeded")
-    # 3. every request other than start-up is refused
-    keys = battery_keys(sim.kind) + (["startup"] if state != OFF else [])
-    for key in keys:
+    # 3. every request route the node offers, other than start-up from OFF, is refused and changes nothing
+    leaves = sim.s._request_manager.get_request_types_recursively()
+    before = fingerprint(sim)
+    group = None
+    for leaf in leaves + [None]:
+        top = leaf[0] if leaf else None
+        if top != group:
+            if group is not None:
+                after = fingerprint(sim)
+                if after != before:
+                    changed = [i for i, (x, y) in enumerate(zip(before, after)) if x != y]
+                    res.violate(f"refused-request-changed-state:{group}", f"{w}: requests under '{group}' changed "
+                                f"fingerprint fields {changed}: {[before[i] for i in changed]} -> {[after[i] for i in changed]}"[:600])
+                    before = after
+            group = top
+        if leaf is None or (leaf == ["startup"] and state == OFF):
+            continue
+        key = leaf_key(leaf)
+        req = leaf_request(sim.kind, leaf)
         try:
-            status = sim.request(key).status
+            status = sim.game.simulation.apply_request(req).status
         except Exception as e:
-            res.violate(f"raise:request:{key}:{exc_sig(e)}", f"{w}: {sim.reqs[key]} raised {exc_msg(e)}")
+            res.violate(f"raise:request:{key}:{exc_sig(e)}", f"{w}: {req} raised {exc_msg(e)}")
             continue
         if status == "success":
-            res.violate(f"request-succeeds-not-on:{key}", f"{w}: {sim.reqs[key]} -> success")
+            res.violate(f"request-succeeds-not-on:{key}", f"{w}: {req} -> success")
+        elif status not in REFUSED:
+            res.violate(f"request-not-refused-not-on:{key}", f"{w}: {req} -> {status}")
+    lab = f"routes:{sim.kind}={len(leaves)}"
+    if lab not in res.labels:
+        res.label(lab)
     # 4. traffic from the network
     try:
         if sim.to_ip and sim.ping(sim.to_ip):
@@ -765,16 +893,25 @@ def case_strategy(max_len: int, comp: List[str]):
 
 
 def exhaustive_cases(depth: int, durs: List[int], comp: List[str]):
+    def mk(kind, du, dd, init, seq):
+        c = {"kind": kind, "du": du, "dd": dd, "init": init, "ops": [list(o) for o in seq]}
+        if comp:
+            c["comp"] = list(comp)
+        return c
+
     for seq in itertools.product(ALPHABET, repeat=depth):
         if not any(o[0] in ("shutdown", "reset") for o in seq):
             continue
         for kind in KINDS:
             for du in durs:
                 for dd in durs:
-                    c = {"kind": kind, "du": du, "dd": dd, "init": ON, "ops": [list(o) for o in seq]}
-                    if comp:
-                        c["comp"] = list(comp)
-                    yield c
+                    yield mk(kind, du, dd, ON, seq)
+    # declared OFF: every sequence one op shorter (every node type is probed OFF-as-declared, BOOTING, and back ON)
+    for seq in itertools.product(ALPHABET, repeat=depth - 1):
+        for kind in KINDS:
+            for du in durs:
+                for dd in durs:
+                    yield mk(kind, du, dd, OFF, seq)
 
 
 def worker(ctx: Ctx):
@@ -783,9 +920,12 @@ def worker(ctx: Ctx):
     depth, durs = (3, [0, 1]) if quick else (4, [0, 1, 2])
     enum_run(ctx, exhaustive_cases(depth, durs, comp), run_case)
     n_seq = len(ALPHABET) ** depth - (len(ALPHABET) - 2) ** depth
+    n_off = len(ALPHABET) ** (depth - 1)
+    per = len(KINDS) * len(durs) ** 2
     ctx.extra["exhaustive"] = True
     ctx.extra["exhaustive_domain"] = (
-        f"all {n_seq} sequences of length {depth} over the 8-symbol alphabet containing a shutdown or reset x "
-        f"{len(KINDS)} node types x durations {durs}^2 = {n_seq * len(KINDS) * len(durs) ** 2} cases"
+        f"({n_seq} sequences of length {depth} over the 8-symbol alphabet containing a shutdown or reset, initial state ON, "
+        f"+ all {n_off} sequences of length {depth - 1}, declared OFF) x {len(KINDS)} node types x durations {durs}^2 = "
+        f"{(n_seq + n_off) * per} cases"
     )
     hyp_run(ctx, case_strategy(25, comp), run_case, 100 if quick else 1500)
